@@ -1,11 +1,13 @@
 import ArgoVerif.Proofs.Rank
 import ArgoVerif.Proofs.XsCtx
+import ArgoVerif.Proofs.Replace
 /-
 Props.C17 — ranks of live execution streams are pairwise distinct; stream life cycle.
 Property theorems only; helper lemmas live in Proofs/Rank.lean and Proofs/XsCtx.lean.
 
 Part 1 (Model.Rank): the pointer-level global stream list of src/stream.c.
 Part 2 (Model.XsCtx): the native-thread state machine of src/arch/abtd_stream.c.
+Part 3 (Model.Replace): replacing the main scheduler of the running stream (partial: see F7).
 -/
 namespace ArgoVerif.Props.C17
 open ArgoVerif ArgoVerif.Model.Rank
@@ -800,5 +802,86 @@ example :
       (fun s => (s.c.cpc, s.c.st)) = some (.jWait, .reqJoin) := by decide
 
 end Xs
+
+/-! ## Part 3 — replacing the main scheduler of the stream the caller runs on -/
+
+namespace Rp
+open ArgoVerif.Model.Replace
+
+/-- **replacement keeps the stream and the calling ULT running — PARTIAL**: proved only under
+the hypothesis that no replacement is requested while another one is pending (`runNO`; one
+caller at a time, each replacement completed before the next request).  Then, after any
+sequence of request / run / yield / finish / replace events on a stream with any set of ULTs:
+no work unit is ever pushed to a freed pool; the current main scheduler is alive; a caller that
+is suspended inside `ABT_xstream_set_main_sched[_basic]` is exactly the registered waiter of the
+pending replacement, associated with the pool of the pending (alive) scheduler, so the `replace`
+step resumes it into the new main scheduler's pool; every ready or running ULT is associated
+with the pool of the current main scheduler or of the pending one, i.e. nothing is stranded.
+What is missing for the full statement: the overlapping case, which the code gets wrong
+(`replace_overlap_strands_first_caller`, finding F7). -/
+theorem replace_keeps_caller_running_partial (ults : List RId) (automatic : Bool) (tr : List Ev) (s : Model.Replace.St)
+    (hr : runNO (Model.Replace.init ults automatic) tr = some s) :
+    s.uaf = false ∧ s.freed s.cur = false ∧
+    (∀ u ∈ s.ults, s.ustat u = .blocked →
+        s.rwaiter s.cur = some u ∧ s.rsched s.cur = some (s.upool u) ∧ s.freed (s.upool u) = false) ∧
+    (∀ u ∈ s.ults, (s.ustat u = .ready ∨ s.ustat u = .running) →
+        s.upool u = s.cur ∨ (s.rsched s.cur = some (s.upool u) ∧ s.freed (s.upool u) = false)) := by
+  have h := inv_runNO tr _ s (inv_init ults automatic) hr
+  refine ⟨h.uaf, h.curAlive, ?_, ?_⟩
+  · intro u hu hb
+    have := h.blocked u hu hb
+    exact ⟨this.1, this.2, (h.pend _ this.2).1⟩
+  · intro u hu hst
+    rcases h.active u hu hst with e | e
+    · exact Or.inl e
+    · exact Or.inr ⟨e, (h.pend _ e).1⟩
+
+/-- the step after which the caller continues: when the main scheduler performs the pending
+replacement (non-overlapping history), the waiter becomes ready in the pool of the *new current*
+main scheduler, which is alive -/
+theorem replace_resumes_caller_partial (ults : List RId) (automatic : Bool) (tr : List Ev) (s s' : Model.Replace.St) (w : RId)
+    (hr : runNO (Model.Replace.init ults automatic) tr = some s) (hw : s.rwaiter s.cur = some w)
+    (hs : Model.Replace.step s .replace = some s') :
+    s'.ustat w = .ready ∧ s'.upool w = s'.cur ∧ s'.freed s'.cur = false ∧ s'.uaf = false := by
+  have h := inv_runNO tr _ s (inv_init ults automatic) hr
+  have h' := inv_replace s s' h hs
+  have hwm := h.waiter w hw
+  have hwb := h.blocked w hwm.1 hwm.2
+  simp only [Model.Replace.step] at hs
+  split at hs
+  · rw [hwb.2, hw] at hs
+    simp only [Option.some.injEq] at hs
+    subst hs
+    exact ⟨by simp [resumePush, upd], by simp [resumePush], h'.curAlive, h'.uaf⟩
+  · cases hs
+
+/-- **counter-example for overlapping replacements (finding F7), user pools**: ULT 0 requests
+scheduler 10 and suspends; the old scheduler still has ULT 1 in its pool and runs it; ULT 1
+requests scheduler 11: scheduler 10 is discarded and ULT 0 is pushed to pool 10; the replacement
+installs scheduler 11.  Final state: ULT 0 is ready in pool 10, whose scheduler is freed and is
+neither the current nor a pending one — it is never scheduled again (the first caller never
+returns), while ULT 1 continues in pool 11. -/
+theorem replace_overlap_strands_first_caller :
+    let r := Model.Replace.run (Model.Replace.init [0, 1] false) [.request 0 10, .run 1, .request 1 11, .replace]
+    r.map (fun s => (s.cur, s.ustat 0, s.upool 0, s.freed 10)) = some (11, .ready, 10, true) ∧
+    r.map (fun s => (s.rsched s.cur, s.ustat 1, s.upool 1, s.uaf)) = some (none, .ready, 11, false) := by
+  decide
+
+/-- same history with automatic pools (`num_pools = 0`): the push of ULT 0 goes to the pool of
+the scheduler that was just freed — use after free -/
+theorem replace_overlap_automatic_pools_uaf :
+    (Model.Replace.run (Model.Replace.init [0, 1] true) [.request 0 10, .run 1, .request 1 11]).map (fun s => s.uaf)
+      = some true := by decide
+
+/-- non-vacuity of the partial theorem: three consecutive, non-overlapping replacements with other
+ULTs pending; the caller continues under each new scheduler -/
+example :
+    (runNO (Model.Replace.init [0, 1, 2] false)
+      [.request 0 10, .run 1, .finish 1, .run 2, .yield 2, .run 2, .finish 2, .replace, .run 0,
+       .request 0 11, .replace, .run 0, .request 0 12, .replace, .run 0]).map
+      (fun s => (s.cur, s.ustat 0, s.upool 0, s.uaf, s.freed 10, s.freed 12))
+      = some (12, .running, 12, false, true, false) := by decide
+
+end Rp
 
 end ArgoVerif.Props.C17
